@@ -134,7 +134,7 @@ def _mi_prepare(e, firsts=("MNamed", "MBodied", "MFunc", "MEmpty")):
     return [number(x) for x in shapes], {"class_used_first": first}
 
 
-def make_harness(shapes: list[Any], shared: bool = False, prepare=None, pred_objects: bool = False):
+def make_harness(shapes: list[Any], shared: bool = False, prepare=None, pred_objects: bool = False, predecessor: bool = False):
     def harness(e):
         reset_all()
         extra_info: dict[str, Any] = {}
@@ -143,7 +143,30 @@ def make_harness(shapes: list[Any], shared: bool = False, prepare=None, pred_obj
             nonlocal_shapes, extra_info = prepare(e)
         shape_no = e.choice(len(nonlocal_shapes), "shape")
         recipe = nonlocal_shapes[shape_no]
+        if predecessor:
+            # ids are unique among registered nodes only: an equal tree was built, walked in every
+            # way (also implicitly: detach(), ==, Tree) and has left the registry, but is still
+            # referenced when the tree under test -- same ids, other objects -- is built and walked
+            how = e.pick(["detached", "root-replaced-with-equal-content", "children-differ-below-equal-root"], "predecessor")
+            extra_info["predecessor"] = how
+            from models.zoo import positions_of, with_origin
+
+            old_recipe = recipe
+            if how == "children-differ-below-equal-root":
+                for pth in positions_of(recipe):
+                    if len(pth) >= 2:
+                        old_recipe = with_origin(old_recipe, pth, "b")
+            old = build(old_recipe, {} if shared else None)
+            list(old.dfs()), list(old.dfs(bottom_up=True)), list(old.bfs()), list(old.gather(CLASSES["VBase"])), old == old, old.to_tree()
+            if how == "root-replaced-with-equal-content":
+                old2 = old.replace()
+                old2.detach()
+                extra_info["_keep"] = (old, old2)
+            else:
+                old.detach()
+                extra_info["_keep"] = (old, [i.node for i in old.dfs()])
         root = build(recipe, {} if shared else None)
+        keep_alive = extra_info.pop("_keep", None)  # noqa: F841
         positions = T.all_positions(recipe, root)
         index = {}
         for n, pos in enumerate(positions):
@@ -295,6 +318,9 @@ def spec(tier: str, seed: int) -> Spec:
     from models.shapes import exotic_shapes
 
     fams.append(Family("exotic-classes", make_harness(exotic_shapes()), variables="as above; iterable / falsy / slotted / mixin classes, two tuple fields"))
+    pre_shapes = [x for x in shapes if recipe_size(x) >= 2][::5]
+    for k in range(0, len(pre_shapes), 12):
+        fams.append(Family(f"predecessor-walked[{k}:{k + 12}]", make_harness(pre_shapes[k : k + 12], predecessor=True), variables="as above; selector: how an equal tree with the same ids was walked and left the registry before"))
     fams.append(Family("falsy-single", make_harness(_falsy_shapes()), variables="as above; trees containing a falsy node class"))
     fams.append(Family("shared-object", make_harness(_shared_shapes(), shared=True), variables="as above; one node object stored at two positions"))
     for first in ("MNamed", "MBodied", "MFunc", "MEmpty"):
